@@ -926,6 +926,13 @@ func (e *Engine) globalInit(g *ssa.Global) (*Term, error) {
 	if s == SIface || s == SRef {
 		t := Const("global!"+g.Pkg.Pkg.Name()+"."+g.Name(), s)
 		e.globalsInit[g] = t
+		if s == SIface && types.Identical(et, types.Universe.Lookup("error").Type()) {
+			// package-level error sentinels (io.EOF, ErrXxx = errors.New(...)) are non-nil: global assumption
+			if e.sentinels == nil {
+				e.sentinels = map[string]*Term{}
+			}
+			e.sentinels[t.Name] = t
+		}
 		return t, nil
 	}
 	// find the initializer in init(): a sequence of stores into &g[i] / g
